@@ -26,6 +26,14 @@ def ex_lbfh(repo):
     return common.status_code(repo) + [p.item(r'^pub\(crate\) struct LatestBlockFilterHashes', attrs=True), p.item(r'^impl LatestBlockFilterHashes \{')]
 
 
+def ex_cfd(repo):
+    b = Source(repo, BF)
+    st = Source(repo, STORAGE)
+    c = b.item(r'^    pub fn check_filters_data'); c.prefix = 'impl FilterProtocol {\n'; c.suffix = '\n}'
+    g = st.item(r'^    pub fn get_scripts_hash'); g.prefix = 'impl Storage {\n'; g.suffix = '\n}'
+    return st.consts(r'^const FILTER_SCRIPTS_KEY: &str = "[^"]*";') + [c, g]
+
+
 def mir_attribution(cfg):
     """O6.3: a block announced next to a matching filter is proved (MMR: membership in the chain, not height) and then indexed for the
     filter's height.  Something must tie the proved header's NUMBER to the range of the pending record before it is marked proved: the
@@ -47,6 +55,10 @@ def ex_bfhashes(repo):
 
 def obligations():
     return [
+        KModelOb('O6.5-script-selection', 'cfd', 'matching_scripts', 'FilterProtocol::check_filters_data + Storage::get_scripts_hash (real text): within the accepted prefix every block whose '
+                 'filter matches a registered script with a recorded number below that block is reported (nothing is skipped), nothing is reported for filters matching '
+                 'no registered script, order and limit respected', ex_cfd, '<=2 filters, 2 script identities with arbitrary recorded numbers; GCS matching abstracted to a bit set',
+                 cuts=['Golomb-coded-set matching -> bit set over script identities', 'RocksDB -> decoded Meta store'], timeout=1500, mem_gb=16, min_covers=1, weight=3),
         MirOb('O6.3-attribution', 'SendBlocksProofProcess::execute_internally: a matched block is marked proved only after the pending record range has been consulted '
               '(necessary for tying the proved header number to the height of the filter that matched)', r'send_blocks_proof\.rs:\d+:\d+: \d+:\d+>::execute_internally\(',
               mir_attribution, src_rel=SBP),
